@@ -77,8 +77,13 @@ func (fr *Frame) callWith(st *State, instr ssa.Instruction, c *ssa.CallCommon, f
 		calleeName = "dynamic:" + valueDesc(c.Value)
 		fr.safe(st, not(eq(fnv.T, "0")), pos, "nil", "call of nil function value")
 		fr.atCall(st, calleeName, args, pos)
-		u.callsNoEffect[calleeName] = true
-		u.note("call through function value %s in %s: result havoced, assumed not to modify modelled heap", valueDesc(c.Value), fr.fn)
+		if fr.declaredNoEffect(calleeName) {
+			u.callsNoEffect[calleeName] = true
+			u.note("call through function value %s in %s: declared noeffect (assumed not to modify the modelled heap), result unconstrained", valueDesc(c.Value), fr.fn)
+		} else {
+			u.callsHavoc[calleeName] = true
+			u.havocAll(st)
+		}
 		res := resultVal(u, sig, fr.freshResults(sig, "dyn"))
 		fr.afterCall(st, calleeName, res)
 		return res
@@ -156,14 +161,14 @@ func (fr *Frame) canInline(f *ssa.Function) bool {
 	if len(loopHeaders(f)) > 0 {
 		return false
 	}
-	// avoid inlining code that uses unsafe/reflect heavy packages
+	// dependency code is inlined only from a short allowlist of plain-Go helper packages
 	p := fnPkgPath(f)
-	for _, bad := range []string{"reflect", "unsafe", "runtime", "sync", "sync/atomic", "internal/", "log/slog", "fmt", "os", "syscall", "google.golang.org/protobuf/internal", "google.golang.org/protobuf/reflect", "go.opentelemetry.io", "github.com/prometheus/client_golang", "context", "strings", "strconv", "unicode", "sort", "regexp", "bytes", "io", "net", "encoding", "math"} {
-		if p == bad || strings.HasPrefix(p, bad) {
-			return false
+	for _, good := range []string{"github.com/prometheus/common/model", "google.golang.org/protobuf/types/known/timestamppb", "google.golang.org/protobuf/types/known/durationpb", "maps", "slices", "cmp"} {
+		if p == good {
+			return true
 		}
 	}
-	return true
+	return false
 }
 
 func (fr *Frame) inline(st *State, f *ssa.Function, args []Val, bind []Val, pos token.Pos) Val {
@@ -193,9 +198,25 @@ func (fr *Frame) inline(st *State, f *ssa.Function, args []Val, bind []Val, pos 
 	return resultVal(u, f.Signature, res)
 }
 
+func (fr *Frame) declaredNoEffect(name string) bool {
+	for f := fr; f != nil; f = f.parent {
+		if f.fc != nil {
+			for _, p := range f.fc.NoEffect {
+				if strings.Contains(name, p) {
+					return true
+				}
+			}
+		}
+	}
+	return false
+}
+
 // defaultCall: no contract, not inlinable.
 func (fr *Frame) defaultCall(st *State, sig *types.Signature, name string, repoCode bool, args []Val) Val {
 	u := fr.u
+	if repoCode && fr.declaredNoEffect(name) {
+		repoCode = false
+	}
 	if repoCode {
 		u.callsHavoc[name] = true
 		u.havocAll(st)
@@ -256,6 +277,7 @@ func (fr *Frame) afterCall(st *State, name string, res Val) {
 		}
 		g := "$called:" + pat
 		u.regHeap(g, "Bool")
+		wasCalled := u.heapCur(st, g)
 		u.heapSet(st, g, "true")
 		rs := res.Tup
 		if rs == nil && res.T != "" {
@@ -268,6 +290,9 @@ func (fr *Frame) afterCall(st *State, name string, res Val) {
 			rn := fmt.Sprintf("$ret:%s:%d", pat, k)
 			u.regHeap(rn, r.S)
 			u.heapSet(st, rn, r.T)
+			fn := fmt.Sprintf("$first:%s:%d", pat, k)
+			u.regHeap(fn, r.S)
+			u.heapSet(st, fn, ite(wasCalled, u.heapCur(st, fn), r.T))
 		}
 	}
 }
@@ -282,7 +307,7 @@ func (fr *Frame) ghostPatterns() []string {
 	walk = func(e Expr) {
 		switch x := e.(type) {
 		case *ECall:
-			if (x.Fn == "called" || x.Fn == "ret" || x.Fn == "ret1" || x.Fn == "ret2") && len(x.Args) >= 1 {
+			if (x.Fn == "called" || x.Fn == "ret" || x.Fn == "ret1" || x.Fn == "ret2" || x.Fn == "first") && len(x.Args) >= 1 {
 				if s, ok := x.Args[0].(*EStr); ok && !seen[s.V] {
 					seen[s.V] = true
 					out = append(out, s.V)
@@ -360,6 +385,7 @@ func (fr *Frame) applyContract(st *State, fc *FuncContract, callee *ssa.Function
 		oc := u.heapCur(st, "$clock")
 		nc := u.heapHavoc(st, "$clock")
 		u.assume(app(">=", nc, oc))
+		u.flushBounds(st)
 	}
 	var res []Val
 	if fc.Pure && sig.Results().Len() == 1 {
